@@ -15,6 +15,8 @@
 //   I <slot> <hex>                   initial value (elements separated by 0x1f)
 //   A <slot> <keyspec-hex> <desc-hex> [opt...]
 //   C <kind> <spec-hex>              all_of any_of one_of differ disjoint
+//   B                                addBracketHandler( counting lambdas) on the current handler
+//   SG <keyspec-hex> <flags>         start a sub-group handler (following A lines define its arguments) ... SE ends it
 //   N <hex>                          checkEnvVarArgs( name)
 //   P <relpath-hex> <content-hex>    file below $HOME
 //   E <name-hex> <value-hex>         setenv (unset again after the scenario)
@@ -24,6 +26,7 @@
 //   R                                run
 #include "vh.hpp"
 
+#include <algorithm>
 #include <array>
 #include <bitset>
 #include <csetjmp>
@@ -253,7 +256,11 @@ struct VecBoolSlot : SlotBase
       v->resize(atoi(e[0].c_str()));
       for (size_t i = 1; i < e.size(); ++i) { size_t p = atoi(e[i].c_str()); if (p < v->size()) (*v)[p] = true; }
    }
-   string dump() const override { string r = "v"; for (bool b : *v) r += b ? '1' : '0'; return r; }
+   string dump() const override
+   {
+      if (v->size() > 100000) return "V" + std::to_string(v->size()) + ":" + std::to_string(std::count(v->begin(), v->end(), true));
+      string r = "v"; for (bool b : *v) r += b ? '1' : '0'; return r;
+   }
    celma::prog_args::detail::ICheck* check(const string& k, const string& a, const string& b) override { return numCheck<int>(k, a, b); }
 };
 
@@ -267,7 +274,11 @@ struct DynBitsetSlot : SlotBase
       v.reset(new celma::container::DynamicBitset(n));
       for (size_t i = 1; i < e.size(); ++i) { size_t p = atoi(e[i].c_str()); if (p < n) v->set(p); }
    }
-   string dump() const override { string r = "v"; for (size_t i = 0; i < v->size(); ++i) r += v->test(i) ? '1' : '0'; return r; }
+   string dump() const override
+   {
+      if (v->size() > 100000) return "V" + std::to_string(v->size()) + ":" + std::to_string(v->count());
+      string r = "v"; for (size_t i = 0; i < v->size(); ++i) r += v->test(i) ? '1' : '0'; return r;
+   }
    celma::prog_args::detail::ICheck* check(const string& k, const string& a, const string& b) override { return numCheck<int>(k, a, b); }
 };
 
@@ -451,6 +462,7 @@ struct ArgvBlock
 };
 
 static string homeDir;
+static bool quiet = false;   // fuzz target: no result lines
 
 static void mkdirs(const string& path)
 {
@@ -479,6 +491,9 @@ static void runScenario(const Scenario& sc, uint64_t idx)
    std::unique_ptr<Handler> single;
    vector<Groups::SharedArgHndl> members;
    Handler* cur = nullptr;
+   Handler* parent = nullptr;
+   vector<std::unique_ptr<Handler>> subs;
+   int brackets = 0;
    vector<string> words;
    bool haveArgv = false;
    string descr = sc.tag + " scenario=" + sc.id;
@@ -488,7 +503,7 @@ static void runScenario(const Scenario& sc, uint64_t idx)
       string r = "R " + sc.id + " " + status + " " + hexs(etype) + " " + hexs(ewhat) + " |";
       for (auto const& n : slotOrder) r += " " + n + "=" + slots[n]->dump();
       r += " | O=" + hexs(out.str()) + " X=" + hexs(err.str()) + " T=" + (addFails.empty() ? string("-") : addFails);
-      puts(r.c_str());
+      if (!quiet) puts(r.c_str());
    };
 
    try
@@ -533,6 +548,16 @@ static void runScenario(const Scenario& sc, uint64_t idx)
             else if (t[1] == "differ") cur->addConstraint(differ(spec));
             else if (t[1] == "disjoint") cur->addConstraint(disjoint(spec));
          }
+         else if (c == "B") { if (!cur) { single.reset(new Handler(out, err, 0)); cur = single.get(); } cur->addBracketHandler([&brackets]() { ++brackets; }, [&brackets]() { --brackets; }); }
+         else if (c == "SG")
+         {
+            if (!cur) { single.reset(new Handler(out, err, 0)); cur = single.get(); }
+            subs.emplace_back(new Handler(*cur, atoi(t[2].c_str())));
+            cur->addArgument(unhexf(t[1]), *subs.back(), "sub group");
+            parent = cur;
+            cur = subs.back().get();
+         }
+         else if (c == "SE") { if (parent) { cur = parent; parent = nullptr; } }
          else if (c == "N") cur->checkEnvVarArgs(unhexf(t[1]));
          else if (c == "L") cur->setUsageLineLength(atoi(t[1].c_str()));
          else if (c == "P")
@@ -584,11 +609,13 @@ static void runScenario(const Scenario& sc, uint64_t idx)
    prog.set(idx, descr + " phase=teardown");
    members.clear();
    single.reset();
+   subs.clear();
    if (useGroups) Groups::reset();
    for (auto const& f : createdFiles) unlink(f.c_str());
    for (auto const& n : setEnvs) unsetenv(n.c_str());
 }
 
+#ifndef ARGH_FUZZ
 int main(int argc, char** argv)
 {
    vh::Args a = vh::parse_args(argc, argv);
@@ -609,3 +636,4 @@ int main(int argc, char** argv)
    fflush(stdout);
    return 0;
 }
+#endif
